@@ -70,6 +70,7 @@ type Ctx struct {
 	streamInv map[string]bool
 	pooled  []string
 	specSigs map[string]specSig
+	defDecl map[string]bool
 }
 
 type inputVar struct {
@@ -147,14 +148,72 @@ type State struct {
 	mem    map[string]string // elem leaf key -> term (Array Int (Array bv64 leafsort))
 	hsort  map[string]string // shared: key -> sort
 	views  []string          // array ids of stream views whose contents survive havoc
+	// generation of the default (not yet materialised) components: a component first touched after a havoc must not
+	// be identified with its entry value (H0_key), so havocs bump the generation that names lazily created components.
+	gen  int
+	pgen map[string]int // key prefix ("M:"+prefix for element memories) -> generation of a partial havoc
 }
 
 func newState() *State {
-	return &State{map[*ssa.Alloc]Val{}, map[string]string{}, map[string]string{}, map[string]string{}, nil}
+	return &State{locals: map[*ssa.Alloc]Val{}, heap: map[string]string{}, mem: map[string]string{}, hsort: map[string]string{}}
+}
+
+var genCounter int
+
+func newGen() int { genCounter++; return genCounter }
+
+func keyHasPrefix(k, p string) bool {
+	return k == p || strings.HasPrefix(k, p+".") || strings.HasPrefix(k, p+"#")
+}
+
+// defGen: generation that names component key (hkey is "M:"+key for element memories) when it is first touched in s.
+func (s *State) defGen(hkey string) int {
+	g := s.gen
+	for p, pg := range s.pgen {
+		if pg <= g {
+			continue
+		}
+		if strings.HasPrefix(p, "M:") != strings.HasPrefix(hkey, "M:") {
+			continue
+		}
+		if strings.HasPrefix(p, "M:") {
+			if keyHasPrefix(hkey[2:], p[2:]) {
+				g = pg
+			}
+		} else if keyHasPrefix(hkey, p) {
+			g = pg
+		}
+	}
+	return g
+}
+
+// defName returns (declaring it if needed) the default term of a component in state s.
+func (c *Ctx) defName(s *State, hkey string) string {
+	g := s.defGen(hkey)
+	var nm string
+	if strings.HasPrefix(hkey, "M:") {
+		nm = fmt.Sprintf("M%d_%s", g, sanitizeSym(hkey[2:]))
+	} else {
+		nm = fmt.Sprintf("H%d_%s", g, sanitizeSym(hkey))
+	}
+	if c.defDecl == nil {
+		c.defDecl = map[string]bool{}
+	}
+	if !c.defDecl[nm] {
+		c.defDecl[nm] = true
+		c.decls = append(c.decls, fmt.Sprintf("(declare-const %s %s)", nm, s.hsort[hkey]))
+	}
+	return nm
 }
 
 func (s *State) clone() *State {
-	n := &State{map[*ssa.Alloc]Val{}, map[string]string{}, map[string]string{}, s.hsort, append([]string{}, s.views...)}
+	n := &State{locals: map[*ssa.Alloc]Val{}, heap: map[string]string{}, mem: map[string]string{}, hsort: s.hsort, views: append([]string{}, s.views...), gen: s.gen}
+	if len(s.pgen) > 0 {
+		n.pgen = map[string]int{}
+		for k, v := range s.pgen {
+			n.pgen[k] = v
+		}
+	}
 	for k, v := range s.locals {
 		n.locals[k] = v
 	}
@@ -174,11 +233,10 @@ func (c *Ctx) heapGet(s *State, key, sort string) string {
 		return t
 	}
 	full := "(Array Int " + sort + ")"
-	nm := "H0_" + sanitizeSym(key)
 	if _, ok := s.hsort[key]; !ok {
 		s.hsort[key] = full
-		c.decls = append(c.decls, fmt.Sprintf("(declare-const %s %s)", nm, full))
 	}
+	nm := c.defName(s, key)
 	s.heap[key] = nm
 	return nm
 }
@@ -187,11 +245,10 @@ func (c *Ctx) memGet(s *State, key, sort string) string {
 		return t
 	}
 	full := "(Array Int (Array " + BV64 + " " + sort + "))"
-	nm := "M0_" + sanitizeSym(key)
 	if _, ok := s.hsort["M:"+key]; !ok {
 		s.hsort["M:"+key] = full
-		c.decls = append(c.decls, fmt.Sprintf("(declare-const %s %s)", nm, full))
 	}
+	nm := c.defName(s, "M:"+key)
 	s.mem[key] = nm
 	return nm
 }
@@ -201,10 +258,10 @@ func (c *Ctx) touchAll(s *State) {
 	for k := range s.hsort {
 		if strings.HasPrefix(k, "M:") {
 			if _, ok := s.mem[k[2:]]; !ok {
-				s.mem[k[2:]] = "M0_" + sanitizeSym(k[2:])
+				s.mem[k[2:]] = c.defName(s, k)
 			}
 		} else if _, ok := s.heap[k]; !ok {
-			s.heap[k] = "H0_" + sanitizeSym(k)
+			s.heap[k] = c.defName(s, k)
 		}
 	}
 }
@@ -241,10 +298,39 @@ func (c *Ctx) havocAll(s *State, reach string) {
 			c.assume("true", fmt.Sprintf("(= (select %s %s) (select %s %s))", s.mem["uint8"], v, oldU8, v))
 		}
 	}
+	s.gen = newGen()
+	s.pgen = nil
 	c.bumpTop()
 }
 
 func (c *Ctx) mergeStates(conds []string, sts []*State) *State {
+	if len(sts) > 1 {
+		same := true
+		for _, s := range sts[1:] {
+			if s.gen != sts[0].gen || len(s.pgen) != len(sts[0].pgen) {
+				same = false
+			}
+			for k, v := range s.pgen {
+				if sts[0].pgen[k] != v {
+					same = false
+				}
+			}
+		}
+		for _, s := range sts {
+			c.touchAll(s)
+		}
+		if !same {
+			// components first touched after this join get a fresh default (over-approximates every branch)
+			out := c.mergeStates2(conds, sts)
+			out.gen = newGen()
+			out.pgen = nil
+			return out
+		}
+	}
+	return c.mergeStates2(conds, sts)
+}
+
+func (c *Ctx) mergeStates2(conds []string, sts []*State) *State {
 	out := sts[0].clone()
 	for i := 1; i < len(sts); i++ {
 		for k, v := range sts[i].locals {
@@ -265,10 +351,10 @@ func (c *Ctx) mergeStates(conds []string, sts []*State) *State {
 			v, ok1 := sts[i].heap[k]
 			o, ok2 := out.heap[k]
 			if !ok1 {
-				v = "H0_" + sanitizeSym(k)
+				v = c.defName(sts[i], k)
 			}
 			if !ok2 {
-				o = "H0_" + sanitizeSym(k)
+				o = c.defName(out, k)
 			}
 			if o != v {
 				out.heap[k] = c.name("hm", out.hsort[k], fmt.Sprintf("(ite %s %s %s)", conds[i], v, o))
@@ -287,10 +373,10 @@ func (c *Ctx) mergeStates(conds []string, sts []*State) *State {
 			v, ok1 := sts[i].mem[k]
 			o, ok2 := out.mem[k]
 			if !ok1 {
-				v = "M0_" + sanitizeSym(k)
+				v = c.defName(sts[i], "M:"+k)
 			}
 			if !ok2 {
-				o = "M0_" + sanitizeSym(k)
+				o = c.defName(out, "M:"+k)
 			}
 			if o != v {
 				out.mem[k] = c.name("mm", out.hsort["M:"+k], fmt.Sprintf("(ite %s %s %s)", conds[i], v, o))
